@@ -85,10 +85,30 @@ def generate(tier, rng):
       for i in range(reps):
         rounds = rng.choice([4, 5]) if tier == 'quick' else rng.choice([4, 5, 6])
         hist = _history(rng, len(_POP), rounds)
-        if i == 0:      # hand-made: the empty client participates; a client repeats in consecutive rounds
-          hist = [[0, 4], [0, 1], [2, 4], [0, 1, 3]] + hist[4:]
-        yield {'name': name, 'hp': hp, 'pop': _POP, 'rounds': hist, 'branch': len(hist) - 3, 'seed': rng.randrange(1000),
-               'ser': 'file' if (i % 2 == 1) else 'pickle', 'fresh': i == 1 or (tier != 'quick' and i % 4 == 1)}
+        if i == 0:      # hand-made: the empty client participates; a client repeats in consecutive rounds; an EMPTY cohort
+          hist = [[0, 4], [0, 1], [], [2, 4], [0, 1, 3]] + hist[5:]
+        forms = _FORMS[i % len(_FORMS)]
+        if name in AGGS:
+          forms = dict(forms, clients=['list', 'gen', 'tuple', 'iter'][i % 4], dtype=['float32', 'float16', 'float32', 'bfloat16'][i % 4])
+        hp_i = dict(hp)
+        if name not in AGGS and tier != 'quick' and i % 8 in (3, 7):
+          hp_i['backend'] = 'debug' if i % 8 == 3 else 'pmap'
+        if name in ('fed_avg', 'apfl') and tier == 'quick' and i == 3:
+          hp_i['backend'] = 'debug' if name == 'fed_avg' else 'pmap'
+        yield {'name': name, 'hp': hp_i, 'pop': _POP, 'rounds': hist, 'branch': len(hist) - 3, 'seed': rng.randrange(1000),
+               'ser': 'file' if (i % 2 == 1) else 'pickle', 'fresh': i == 1 or (tier != 'quick' and i % 4 == 1),
+               'forms': forms, 'nojit': tier != 'quick' and i % 8 == 5}
+
+
+# how the arguments are delivered: container of the client tuple, id type (…0 = client 0 has the empty id),
+# rng as jax / numpy array, aggregator weights as float / numpy scalar / 0-d jax array / with an exact 0 and a
+# total below 1, positional or keyword call
+_FORMS = [
+    {'clients': 'list', 'ids': 'bytes', 'rng': 'jax', 'w': 'float', 'kw': False},
+    {'clients': 'tuple', 'ids': 'str', 'rng': 'np', 'w': 'np', 'kw': True},
+    {'clients': 'list', 'ids': 'bytes0', 'rng': 'jax', 'w': 'jnp', 'kw': False},
+    {'clients': 'tuple', 'ids': 'str0', 'rng': 'np', 'w': 'frac', 'kw': True},
+]
 
 
 # ---- running -------------------------------------------------------------------
@@ -160,19 +180,45 @@ def _serialise(state, how):
     shutil.rmtree(d, ignore_errors=True)
 
 
+def _forms(case):
+  return case.get('forms') or _FORMS[0]
+
+
+def _id(case, i):
+  return tiny.cid(i, _forms(case)['ids'])
+
+
 def _clients_for(case, rnd, datasets):
-  return [(tiny.cid(i), datasets[i], tiny.client_rng(case['seed'], rnd, i)) for i in case['rounds'][rnd]]
+  f = _forms(case)
+  rng = (lambda k: np.asarray(k)) if f['rng'] == 'np' else (lambda k: k)
+  return [(_id(case, i), datasets[i], rng(tiny.client_rng(case['seed'], rnd, i))) for i in case['rounds'][rnd]]
+
+
+def _deliver(case, base):
+  """The client tuple in the container form of the case (a new one-shot iterator every time)."""
+  form = _forms(case)['clients']
+  return {'list': lambda: list(base), 'tuple': lambda: tuple(base), 'gen': lambda: (c for c in base),
+          'iter': lambda: iter(list(base))}[form]()
 
 
 def _agg_clients(case, rnd):
   import jax
   import jax.numpy as jnp
   out = []
-  for i in case['rounds'][rnd]:
+  f = _forms(case)
+  dt = {'float32': jnp.float32, 'float16': jnp.float16, 'bfloat16': jnp.bfloat16}[f.get('dtype', 'float32')]
+  for j, i in enumerate(case['rounds'][rnd]):
     p = tiny.init_params(i)
-    p = jax.tree_util.tree_map(lambda l: jnp.asarray(l * (1 + rnd) + 0.125 * i, jnp.float32), p)
-    p['lin']['m'] = jnp.asarray([[0.5 * i, -1.0, 0.25], [2.0, 0.0, 1.5 * (rnd + 1)]], jnp.float32)
-    out.append((tiny.cid(i), p, float(sum(case['pop'][i]['cnt']) + 1)))
+    p = jax.tree_util.tree_map(lambda l: jnp.asarray(l * (1 + rnd) + 0.125 * i, dt), p)
+    p['lin']['m'] = jnp.asarray([[0.5 * i, -1.0, 0.25], [2.0, 0.0, 1.5 * (rnd + 1)]], dt)
+    w = float(sum(case['pop'][i]['cnt']) + 1)
+    if f['w'] == 'np':
+      w = np.float32(w)
+    elif f['w'] == 'jnp':
+      w = jnp.asarray(w, jnp.float32)
+    elif f['w'] == 'frac':       # an exact 0, and a total weight strictly between 0 and 1
+      w = 0.0 if j == 0 and len(case['rounds'][rnd]) > 1 else 0.25
+    out.append((_id(case, i), p, w))
   return out
 
 
@@ -182,11 +228,22 @@ def _client_snapshot(clients, is_agg):
   return tiny.snapshot([(c, dict(ds.raw_examples), r) for c, ds, r in clients])
 
 
-def _call(name, obj, state, clients, is_agg):
+def _call_raw(name, obj, state, clients, is_agg, kw=False):
   if is_agg:
-    agg, st = obj.apply(clients, state)
+    agg, st = obj.apply(clients_params_and_weights=clients, aggregator_state=state) if kw else obj.apply(clients, state)
     return st, agg
-  return obj.apply(state, clients)
+  return obj.apply(server_state=state, clients=clients) if kw else obj.apply(state, clients)
+
+
+def _buffers(x):
+  out = set()
+  for l in _array_leaves(x):
+    try:
+      if hasattr(l, 'unsafe_buffer_pointer') and not l.is_deleted():
+        out.add(l.unsafe_buffer_pointer())
+    except Exception:
+      pass
+  return out
 
 
 def _key_bits(k):
@@ -225,6 +282,11 @@ def run(case):
     state = tiny.init_state(name, hp, obj)
     datasets = [tiny.client_dataset(s) for s in case['pop']]
   clients_of = (lambda r: _agg_clients(case, r)) if is_agg else (lambda r: _clients_for(case, r, datasets))
+  kw = _forms(case)['kw']
+
+  def _call(name, obj, state, clients, is_agg):      # deliver in the case's container form, every call a new one
+    return _call_raw(name, obj, state, _deliver(case, clients), is_agg, kw)
+  kept = []
   obs = {'init': _init_classes(name, state), 'rounds': [], 'restore_same': True, 'err': None,
          'rebranch_same': True, 'fresh_same': True, 'init_same': True, 'second_history_same': True}
   init_snap = tiny.snapshot(state)
@@ -242,6 +304,8 @@ def run(case):
       o1 = (tiny.snapshot(s1), tiny.snapshot(d1))
       states.append(state)
       outs.append(o1)
+      kept.append((s1, d1))
+      in_buf = _buffers(state) | _buffers([(p, w) if is_agg else w for _, p, w in clients])
       ro = {
           'input_same': tiny.same_snapshot(before, tiny.snapshot(state)),
           'deleted': tiny.count_deleted(state),
@@ -249,7 +313,10 @@ def run(case):
           'clients_deleted': tiny.count_deleted([(p, w) if is_agg else (dict(p.raw_examples), w) for _, p, w in clients]),
           'writes': tiny.writes(conts),
           'pattern': _pattern(name, state, s1),
-          'keys': sorted(int(k[1:]) for k in s1.client_states) if name == 'apfl' else [],
+          'keys': sorted(tiny.cid_index(k) for k in s1.client_states) if name == 'apfl' else [],
+          # a NEW element of the result must not share a device buffer with anything the caller passed in
+          'aliases': sum(1 for (_, es), row in zip(_slots(name, s1), _pattern(name, state, s1))
+                         for e, p in zip(es, row) if p == ['new'] and (_buffers(e) & in_buf)) + len(_buffers(d1) & in_buf),
           'rngpath': _rng_path(root, s1.rng, 2 * nr + 2) if is_agg else 0,
       }
       try:
@@ -273,14 +340,14 @@ def run(case):
       ro['still_same_after_second'] = (tiny.same_snapshot(before, tiny.snapshot(state)) and tiny.count_deleted(state) == 0
                                        and not tiny.writes(conts))
       if name == 'hyp_cluster':
-        ids = [int(np.asarray(d1[tiny.cid(i)]['cluster_id'])) for i in case['rounds'][r]]
+        ids = [int(np.asarray(d1[_id(case, i)]['cluster_id'])) for i in case['rounds'][r]]
         sizes = [sum(case['pop'][i]['cnt']) for i in case['rounds'][r]]
         ro['assign'] = ids
         ro['live'] = [any(a == k and n > 0 for a, n in zip(ids, sizes)) for k in range(hp.get('K', 2))]
       if name == 'apfl':
         # evaluating the personalised models (whole population, generator consumed) must leave the state alone
         eb, ec = tiny.snapshot(s1), tiny.containers(s1)
-        list(tiny.apfl_eval()(s1, [(tiny.cid(i), d) for i, d in enumerate(datasets)]))
+        list(tiny.apfl_eval()(s1, [(_id(case, i), d) for i, d in enumerate(datasets)]))
         ro['eval_state_same'] = tiny.same_snapshot(eb, tiny.snapshot(s1)) and not tiny.writes(ec)
       ro['nclients'] = len(clients)
       ro['trained_examples'] = 0 if is_agg else sum(sum(case['pop'][i]['cnt']) for i in case['rounds'][r])
@@ -297,6 +364,32 @@ def run(case):
       if r == case['branch']:
         restored = _serialise(state, case.get('ser', 'pickle'))
         post.append(tiny.same_snapshot(tiny.snapshot(state), tiny.snapshot(restored)))
+    # every result the caller kept is still what it was when it was returned
+    obs['kept_same'] = all(_same_out(o, s, d) and tiny.count_deleted(s) + tiny.count_deleted(d) == 0 for o, (s, d) in zip(outs, kept))
+    # another object built in the same process from the same loss / grad functions with other hyper-parameters,
+    # used once; then the first-built object must still answer as before
+    if case.get('fresh') and nr:
+      try:
+        hp2 = dict(hp, aseed=hp.get('aseed', 0) + 1) if is_agg else dict(hp, clr=0.0625, slr=0.5)
+        obj3 = tiny.aggregator(name, hp2, True) if is_agg else tiny.algorithm(name, hp2, True)
+        st3 = obj3.init() if is_agg else tiny.init_state(name, hp2, obj3)
+        _call(name, obj3, st3, clients_of(0), is_agg)
+        sj, dj = _call(name, obj, states[0], clients_of(0), is_agg)
+        obs['sibling_same'] = _same_out(outs[0], sj, dj)
+      except Exception as ex:
+        obs['sibling_same'] = False
+        obs['sibling_err'] = type(ex).__name__ + ': ' + str(ex)[:120]
+    if case.get('nojit') and nr:
+      import jax
+      try:
+        with jax.disable_jit():
+          a1 = _call(name, obj, states[0], clients_of(0), is_agg)
+          a2 = _call(name, obj, states[0], clients_of(0), is_agg)
+        obs['nojit_same'] = _same_out((tiny.snapshot(a1[0]), tiny.snapshot(a1[1])), a2[0], a2[1]) and \
+            tiny.same_snapshot(init_snap, tiny.snapshot(states[0]))
+      except Exception as ex:
+        obs['nojit_same'] = False
+        obs['nojit_err'] = type(ex).__name__ + ': ' + str(ex)[:120]
     # the very first state object still has its value, init() on the same object gives it again, and a
     # second history from that second init() repeats the first one
     obs['init_same'] = tiny.same_snapshot(init_snap, tiny.snapshot(states[0])) and not tiny.writes(init_conts)
@@ -333,6 +426,7 @@ def run(case):
           obs['fresh_err'] = type(ex).__name__ + ': ' + str(ex)[:120]
   except Exception as ex:    # an algorithm that raises on in-quantifier input is itself a finding
     obs['err'] = type(ex).__name__ + ': ' + str(ex)[:200]
+    obs['err_empty_cohort'] = len(obs['rounds']) < nr and not case['rounds'][len(obs['rounds'])]
   obs['restore_same'] = all(post)
   obs['restore_checks'] = len(post)
   return obs
@@ -342,8 +436,18 @@ def oracle(case, obs):
   n = case['name']
   out = []
   if obs['err']:
+    if obs.get('err_empty_cohort'):
+      return [(n + '.empty-cohort-raises', f'{n}: apply() on an empty client selection raised {obs["err"]}')]
     return [(n + '.raises', f'{n}: apply raised {obs["err"]}')]
+  if not obs.get('kept_same', True):
+    out.append((n + '.result-invalidated', f'{n}: a result kept by the caller changed or was deleted by later calls'))
+  if not obs.get('sibling_same', True):
+    out.append((n + '.hidden-state', f'{n}: after another object with other hyper-parameters was built and used, the first one answers differently'))
+  if not obs.get('nojit_same', True):
+    out.append((n + '.not-repeatable', f'{n}: under jax.disable_jit() two identical calls differ or the input state changed'))
   for r, ro in enumerate(obs['rounds']):
+    if ro.get('aliases'):
+      out.append((n + '.result-aliases-input', f'{n} round {r}: {ro["aliases"]} new result arrays share a device buffer with the arguments'))
     if not ro['input_same'] or not ro['still_same_after_second']:
       out.append((n + '.input-state-changed', f'{n} round {r}: the caller\'s server state no longer has its value after apply()'))
     if ro['writes']:
